@@ -5,7 +5,7 @@
 (* An expression is a sequence of tokens                                   *)
 (*      operand op operand op ... operand                                  *)
 (* where an operand is an atom <<"atom", x>>, an application              *)
-(* <<"app", f, operand>>, a                                                *)
+(* <<"app", f, operand>> / <<"appn", f, <<operands>>>> (several arguments), a *)
 (* parenthesised chain <<"paren", tokens>> or <<"not", operand>>, or - as   *)
 (* the LAST operand of its chain only - one of the terms that extend as    *)
 (* far as possible: a lambda <<"lam", x, body tokens>> (fun x -> body) or  *)
@@ -57,6 +57,7 @@ TermTree(t) ==
          [] t[1] = "app"   -> <<"app", t[2], TermTree(t[3])>>
          [] t[1] = "not"   -> <<"not", TermTree(t[2])>>
          [] t[1] = "paren" -> ParseE(t[2], 1, 1)[1]        \* parentheses only group
+         [] t[1] = "appn"  -> <<"appn", t[2], [i \in 1..Len(t[3]) |-> TermTree(t[3][i])]>>      \* h x y: arguments are atoms or ( chains )
          [] t[1] = "lam"   -> <<"lam", t[2], ParseE(t[3], 1, 1)[1]>>
          [] t[1] = "ifx"   -> <<"if", ParseE(t[2], 1, 1)[1], ParseE(t[3], 1, 1)[1], ParseE(t[4], 1, 1)[1]>>
 
@@ -86,6 +87,7 @@ DeclTerm(t) ==
          [] t[1] = "app"   -> <<"app", t[2], DeclTerm(t[3])>>
          [] t[1] = "not"   -> <<"not", DeclTerm(t[2])>>
          [] t[1] = "paren" -> Declarative(t[2])
+         [] t[1] = "appn"  -> <<"appn", t[2], [i \in 1..Len(t[3]) |-> DeclTerm(t[3][i])]>>
          [] t[1] = "lam"   -> <<"lam", t[2], Declarative(t[3])>>
          [] t[1] = "ifx"   -> <<"if", Declarative(t[2]), Declarative(t[3]), Declarative(t[4])>>
 
@@ -101,12 +103,16 @@ Declarative(toks) ==
 (* FExpr is parseExprWithPrec / parseTerm / parseAtom over that text: a term is `not` TERM, `fun` x `->` EXPR, `if` EXPR      *)
 (* `then` EXPR `else` EXPR, or one or more atoms (a name applied to atoms); an atom is a name or ( EXPR ).                    *)
 Keywords == {"not", "fun", "->", "if", "then", "else", "(", ")"}
-RECURSIVE Flat(_), FlatOperand(_)
+RECURSIVE Flat(_), FlatOperand(_), FlatArgs(_)
+\* an argument is an atom or stands in parentheses
+FlatArg(t) == IF t[1] \in {"atom", "paren"} THEN FlatOperand(t) ELSE <<"(">> \o FlatOperand(t) \o <<")">>
+FlatArgs(as) == IF as = <<>> THEN <<>> ELSE FlatArg(as[1]) \o FlatArgs(Tail(as))
 FlatOperand(t) ==
   CASE t[1] = "atom"  -> <<t[2]>>
     [] t[1] = "app"   -> <<t[2]>> \o (IF t[3][1] = "atom" THEN <<t[3][2]>> ELSE <<"(">> \o FlatOperand(t[3]) \o <<")">>)
     [] t[1] = "not"   -> <<"not">> \o FlatOperand(t[2])
     [] t[1] = "paren" -> <<"(">> \o Flat(t[2]) \o <<")">>
+    [] t[1] = "appn"  -> <<t[2]>> \o FlatArgs(t[3])
     [] t[1] = "lam"   -> <<"fun", t[2], "->">> \o Flat(t[3])
     [] t[1] = "ifx"   -> <<"if">> \o Flat(t[2]) \o <<"then">> \o Flat(t[3]) \o <<"else">> \o Flat(t[4])
 Flat(toks) == IF toks = <<>> THEN <<>>
@@ -130,7 +136,8 @@ FTerm(ts, p) ==
     [] OTHER -> LET h == FAtom(ts, p)
                     as == FArgs(ts, h[2])
                 IN IF as[1] = <<>> THEN h
-                   ELSE <<<<"app", h[1][2], as[1][1]>>, as[2]>>                                        \* (one argument in this model)
+                   ELSE IF Len(as[1]) = 1 THEN <<<<"app", h[1][2], as[1][1]>>, as[2]>>
+                   ELSE <<<<"appn", h[1][2], as[1]>>, as[2]>>
 FExpr(ts, p, minPrec) == LET t == FTerm(ts, p) IN FBinAfter(ts, t[2], minPrec, t[1])
 FBinAfter(ts, p, minPrec, cur) ==
   IF p <= Len(ts) /\ ts[p] \in AllOps
